@@ -443,6 +443,18 @@ impl Bitstr {
     }
 }
 
+#[cfg(feature = "verif_hooks")]
+impl Bitstr {
+    /// (strong reference count, backing buffer length in bytes, buffer is borrowed)
+    pub fn verif_storage(&self) -> (usize, usize, bool) {
+        let borrowed = match &*self.data {
+            Cow::Borrowed(_) => true,
+            Cow::Owned(_) => false,
+        };
+        (Rc::strong_count(&self.data), self.data.len(), borrowed)
+    }
+}
+
 impl PartialEq for Bitstr {
     fn eq(&self, other: &Bitstr) -> bool {
         self.eq_with(other)
